@@ -14,7 +14,7 @@
 //!      the rest is reported as undecided (the quartic-extension FRI algebra is beyond z3);
 //!  (4) supplementary enumeration (NOT solver-decided, reported separately): each variable's
 //!      shadow is altered in turn and both verifiers are re-run concolically; they must agree.
-use std::collections::BTreeSet;
+use std::collections::{BTreeMap, BTreeSet};
 use std::sync::Arc;
 
 use harness::common::*;
@@ -175,6 +175,79 @@ fn run_once(s: &Setup, tamper: Option<(u32, u64)>) -> Run {
     out
 }
 
+fn describe(f: &Poly) -> String {
+    let mut out = String::new();
+    for (m, c) in f.t.iter().take(3) {
+        out.push_str(&format!("{c}*"));
+        for (v, e) in m {
+            let d = with_arena(|a| match &a.nodes[*v as usize] {
+                Node::Var(x) => format!("var:{}", a.var_names[*x as usize]),
+                Node::Uf { args, idx, .. } => format!("uf#{v}[{}]({} args)", idx, args.len()),
+                Node::Inv(_) => format!("inv#{v}"),
+                _ => format!("cut#{v}"),
+            });
+            out.push_str(&format!("{d}^{e} "));
+        }
+        out.push_str(" + ");
+    }
+    out
+}
+
+fn explain_diff(nz: &mut Normalizer, a: H, b: H, depth: usize) {
+    if depth > 12 { return; }
+    let pad = "  ".repeat(depth + 2);
+    let _ = (nz.norm(a), nz.norm(b));
+    let canon_uf = |nz: &Normalizer, h: H| -> Option<H> { if let H::N(i) = h { if with_arena(|ar| matches!(ar.nodes[i as usize], Node::Uf { .. })) { return nz.rep_of.get(&i).copied(); } } None };
+    let (ha, hb) = match (canon_uf(nz, a), canon_uf(nz, b)) { (Some(x), Some(y)) => (x, y), _ => (nz.handle(a).unwrap_or(a), nz.handle(b).unwrap_or(b)) };
+    if ha == hb { return; }
+    let kind = |h: H| -> String { match h { H::C(v) => format!("const {v}"), H::N(i) => with_arena(|ar| match &ar.nodes[i as usize] {
+        Node::Var(x) => format!("var {}", ar.var_names[*x as usize]), Node::Uf { idx, args, .. } => format!("uf#{i}[{idx}]/{}", args.len()), Node::Inv(_) => format!("inv#{i}"),
+        Node::Add(..) => format!("add#{i}"), Node::Sub(..) => format!("sub#{i}"), Node::Mul(..) => format!("mul#{i}"), Node::Neg(..) => format!("neg#{i}") }) } };
+    let (na, nb) = (nz.norm(a).unwrap(), nz.norm(b).unwrap());
+    eprintln!("{pad}diff: {} [{} terms] vs {} [{} terms]; shadows {} {}", kind(ha), na.t.len(), kind(hb), nb.t.len(), with_arena(|ar| ar.shadow(a)), with_arena(|ar| ar.shadow(b)));
+    if let (H::N(i), H::N(j)) = (ha, hb) {
+        let (x, y) = with_arena(|ar| (ar.nodes[i as usize].clone(), ar.nodes[j as usize].clone()));
+        if let (Node::Uf { args: aa, .. }, Node::Uf { args: bb, .. }) = (&x, &y) {
+            for (k, (p, q)) in aa.iter().zip(bb.iter()).enumerate() {
+                if p != q {
+                    eprintln!("{pad} arg {k} differs");
+                    explain_diff(nz, *p, *q, depth + 1);
+                    return;
+                }
+            }
+            return;
+        }
+    }
+    let d = na.sub(&nb);
+    eprintln!("{pad}  difference has {} terms: {}", d.t.len(), describe(&d));
+    for m in d.t.keys() { for (v, _) in m { if let Some(Node::Inv(x)) = with_arena(|ar| Some(ar.nodes[*v as usize].clone())) {
+        let fx = nz.norm(x).unwrap();
+        static SEEN: std::sync::Mutex<Vec<u32>> = std::sync::Mutex::new(Vec::new());
+        let mut seen = SEEN.lock().unwrap();
+        if !seen.contains(v) { seen.push(*v); eprintln!("{pad}  inv#{v} operand [{} terms] = {}", fx.t.len(), describe(&fx)); }
+    } } }
+    eprintln!("{pad}  a = {}", describe(&na));
+    eprintln!("{pad}  b = {}", describe(&nb));
+}
+
+fn cone(roots: &[H]) -> std::collections::HashSet<u32> {
+    let mut seen = std::collections::HashSet::new();
+    let mut stack: Vec<u32> = roots.iter().filter_map(|h| if let H::N(i) = h { Some(*i) } else { None }).collect();
+    with_arena(|a| {
+        while let Some(i) = stack.pop() {
+            if !seen.insert(i) { continue; }
+            let mut push = |h: H| if let H::N(j) = h { stack.push(j) };
+            match &a.nodes[i as usize] {
+                Node::Var(_) => {}
+                Node::Add(x, y) | Node::Sub(x, y) | Node::Mul(x, y) => { push(*x); push(*y) }
+                Node::Neg(x) | Node::Inv(x) => push(*x),
+                Node::Uf { args, .. } => args.iter().for_each(|x| push(*x)),
+            }
+        }
+    });
+    seen
+}
+
 fn eq_atoms(evs: &[Event]) -> (Vec<Fm>, Vec<Fm>) {
     let mut eqs = Vec::new();
     let mut path = Vec::new();
@@ -245,6 +318,46 @@ fn main() {
                 let mut hyps = path.clone();
                 hyps.extend(hyps_src.iter().cloned());
                 let tt = std::time::Instant::now();
+                if std::env::var("VERIF_NORMAL").is_ok() {
+                    let t0 = std::time::Instant::now();
+                    let mut nz = Normalizer::new(P);
+                    for pass in 0..5 {
+                        let mut uses: BTreeMap<String, usize> = BTreeMap::new();
+                        for h in hyps.iter() {
+                            if let Fm::Eq(l, r) = h {
+                                let th = std::time::Instant::now();
+                                let u = nz.add_hyp(*l, *r);
+                                if th.elapsed().as_secs_f64() > 2.0 { eprintln!("  [slow hyp] {:.1}s {u:?} t_reduce={:.1} t_frac={:.1} t_invpoly={:.1} inval={}", th.elapsed().as_secs_f64(), nz.t_reduce, nz.t_frac, nz.t_invpoly, nz.invalidations); }
+                                *uses.entry(format!("{u:?}")).or_insert(0) += 1;
+                            }
+                        }
+                        let mut ok = 0; let mut bad = 0; let mut none = 0;
+                        for g in goals.iter() {
+                            if let Fm::Eq(l, r) = g {
+                                match nz.equal(*l, *r) { Some(true) => ok += 1, Some(false) => {
+                                    bad += 1;
+                                    if pass == std::env::var("VERIF_EXPLAIN_PASS").ok().and_then(|s| s.parse().ok()).unwrap_or(0usize) && bad <= 2 {
+                                        let (nl, nr) = (nz.norm(*l).unwrap(), nz.norm(*r).unwrap());
+                                        if bad == 1 {
+                                            for h in hyps.iter() {
+                                                if let Fm::Eq(hl, hr) = h {
+                                                    if hl == l || hr == l || hl == r || hr == r {
+                                                        let other = if hl == l || hl == r { *hr } else { *hl };
+                                                        let mine = if hl == l || hr == l { *r } else { *l };
+                                                        explain_diff(&mut nz, other, mine, 0);
+                                                    }
+                                                }
+                                            }
+                                        }
+                                        eprintln!("  [goal-fail] l terms={} r terms={} l={} r={}", nl.t.len(), nr.t.len(), describe(&nl), describe(&nr));
+                                    }
+                                }, None => none += 1 }
+                            }
+                        }
+                        eprintln!("[normal] {dir} pass {pass}: hyps {uses:?} goals ok={ok} not={bad} none={none} merges={} opaque={} forced={} inval={} fracm={} fract={} t_reduce={:.1} t_frac={:.1} t_invpoly={:.1} splits={} red={} t={:.1}s", nz.merges.len(), nz.opaque.len(), nz.forced_cuts, nz.invalidations, nz.frac_merges, nz.frac_tests, nz.t_reduce, nz.t_frac, nz.t_invpoly, nz.inv_splits, nz.inv_reductions, t0.elapsed().as_secs_f64());
+                        if nz.next_pass(4) == 0 { break; }
+                    }
+                }
                 let mut rw = rewriter_from_fast(P, &hyps);
                 if std::env::var("VERIF_TRACE").is_ok() { eprintln!("[trace] rewriter {dir} built in {:.1}s, arena {} nodes", tt.elapsed().as_secs_f64(), with_arena(|a| a.nodes.len())); }
                 for g in goals.iter() {
@@ -256,6 +369,13 @@ fn main() {
                         sh.bump("c01.equiv.unsat");
                         sh.bump("c01.equiv.unsat_by_congruence_rewriting");
                         continue;
+                    }
+                    if std::env::var("VERIF_TRACE").is_ok() {
+                        if let Fm::Eq(l, r) = &gc {
+                            let cl = cone(&[*l]); let cr = cone(&[*r]);
+                            let shared = cl.intersection(&cr).count();
+                            eprintln!("[undecided] {dir} l={} r={} shared={} exp_l={} exp_r={} vars={}", cl.len(), cr.len(), shared, expansion_size(&[*l], 1<<40), expansion_size(&[*r], 1<<40), vars_of(&[*l,*r]).len());
+                        } else { eprintln!("[undecided] {dir} non-eq {:?}", gc); }
                     }
                     let _ = dir;
                     sh.bump("c01.equiv.undecided_beyond_back_end");
